@@ -73,7 +73,7 @@ StatAfterDraw(e) ==
 
 \* <<failing observations, img', st'>> of a non-case event; the CASE has no OTHER: an unknown
 \* event kind is a structural error (trace rejected)
-Known == {"case", "new", "image", "noimage", "pixels", "draw", "cdraw", "wdraw", "sdraw", "hugenew", "giant", "panic"}
+Known == {"case", "new", "image", "noimage", "pixels", "draw", "cdraw", "wdraw", "sdraw", "hugenew", "giant", "deep", "panic"}
 Eff(e) ==
   CASE e.ev = "new"     -> <<ItemsNew(e), img, st>>
     [] e.ev = "image"   -> <<ItemsImage(e), ImageAfter(e), st>>
@@ -84,6 +84,7 @@ Eff(e) ==
     [] e.ev = "sdraw"   -> <<ItemsSDraw(e), img, [st EXCEPT !.skipping_draws = @ + Len(e.obs)]>>
     [] e.ev = "cdraw"   -> <<ItemsCDraw(e), img, [st EXCEPT !.clipped_draws = @ + 1]>>
     [] e.ev = "giant"   -> <<Failing(<< [codes |-> GiantFails(e), d |-> [what |-> "giant", sub |-> e.sub, subcalls |-> e.subcalls, probes |-> e.probes]] >>), img, st>>
+    [] e.ev = "deep"    -> <<Failing(<< [codes |-> DeepFails(e), d |-> [what |-> "deep", w |-> e.w, h |-> e.h, n |-> e.n, stack |-> e.stack]] >>), img, st>>
     [] e.ev = "hugenew" -> <<ItemsHugeNew(e), img, [st EXCEPT !.huge_new_probes = @ + Len(e.items)]>>
     [] e.ev = "panic"   -> << <<[codes |-> {"library_call_panicked"}, msg |-> e.msg, loc |-> e.loc]>>, img, st>>   \* a call that panics did not return the promised result
 
